@@ -1,5 +1,6 @@
 """C01 - see DESIGN.md section 5; shared machinery in corecommon.py"""
 from checks import corecommon as cc
+from checks import corefam7
 
 PID = "C01"
 LEVEL = cc.LEVEL
@@ -14,6 +15,7 @@ RULE = ("grammar-generated task programs (profiles %s; trees and DAGs of tasks, 
         "least 2 tasks and 1 scheduler flush; distinct by hash of (configuration, programs)" % (", ".join(p for p, _ in MIX)))
 RULE += cc.ASYNCIO_RULE
 RULE += "; plus families valuekinds (generator objects, coroutines, iterators, every class of future passed AS VALUES through every kind of async function and calling convention: identity and untouched state) and equalreceivers (methods and sync_fn pairs on equal-but-distinct / unhashable receivers), judged by direct expectation (Drv/Families6v.lean)"
+RULE += corefam7.RULE
 TRUSTED = cc.TRUSTED_CORE + cc.TRUSTED_ASYNCIO
 ASSUMPTIONS = cc.ASSUMPTIONS_CORE
 
@@ -23,7 +25,8 @@ def extra(tier, rng):
     return [coregen.override_family(rng) for _ in range(150 if tier == "quick" else 3000)] + \
         [coregen.shared_override_family(rng) for _ in range(100 if tier == "quick" else 2000)] + \
         cc.asyncio_cases(PID, tier, cc.fork(rng, "aio")) + \
-        cc.corefam6v.valuekinds_cases(tier, cc.fork(rng, "valuekinds")) + cc.corefam6v.equalreceivers_cases(tier, cc.fork(rng, "equalreceivers"))
+        cc.corefam6v.valuekinds_cases(tier, cc.fork(rng, "valuekinds")) + cc.corefam6v.equalreceivers_cases(tier, cc.fork(rng, "equalreceivers")) + \
+        corefam7.sharedread_cases(tier, cc.fork(rng, "sharedread"))
 
 
 def plan(tier, seed):
@@ -31,10 +34,14 @@ def plan(tier, seed):
 
 
 def run_case(case):
+    if case.get("special") == "sharedread":
+        return corefam7.run_sharedread(case, PID)
     return cc.run_case_for(PID, case)
 
 
 def shrink(case):
+    if case.get("special") == "sharedread":
+        return corefam7.shrink(case)
     return cc.shrink_case(case)
 
 
